@@ -203,6 +203,7 @@ async fn open_cache<V: StorageValue + Clone>(dir: &std::path::Path, io: &SimIo, 
         .with_indexer_shards(2)
         .with_flushers(1)
         .with_buffer_pool_size(2 * 1024 * 1024)
+        .with_compression(compression)
         .with_eviction_pickers(vec![Box::new(FifoPicker::new(0.1))]);
     HybridCacheBuilder::new()
         .with_policy(HybridCachePolicy::WriteOnInsertion)
@@ -334,6 +335,17 @@ fn e2e_bytes(lens: &[usize], compression: Compression, res: &mut ShardResult) ->
             }
         }
         for e in stored.iter() {
+            res.add(
+                match e.header.compression {
+                    0 => "entries_on_disk_none",
+                    1 => "entries_on_disk_zstd",
+                    _ => "entries_on_disk_lz4",
+                },
+                1,
+            );
+            if e.header.compression != compression.to_u8() {
+                out.push(("E.compression-ignored".into(), format!("{what}: the stored entry is marked with compression {}", e.header.compression)));
+            }
             if !e.checksum_ok {
                 out.push(("E.lengths".into(), format!("{what}: the stored entry's checksum over the recorded lengths does not match the bytes on the device")));
             }
@@ -490,6 +502,9 @@ impl Prop for C08Prop {
         }
         if r.get("e2e_misses") == 0 {
             v.push("no oversize entry was ever rejected".into());
+        }
+        if r.get("entries_on_disk_zstd") == 0 || r.get("entries_on_disk_lz4") == 0 || r.get("entries_on_disk_none") == 0 {
+            v.push("some compression mode never produced an entry on the device".into());
         }
         if r.get("small_buffer_cases") == 0 {
             v.push("no too-small buffer was tried".into());
